@@ -2,6 +2,7 @@
 import collections
 import random
 
+from vf import session
 from vf.core import Res
 from vf import worldlib as wl
 from vf import reentry
@@ -65,6 +66,11 @@ def gen_one(rng, tier, index):
 
 
 def gen_cases(tier, seed):
+    # whole "game sessions" (vf/session.py): the features used together,
+    # judged by the self-consistency invariants of this property
+    for i in range(150 if tier == 'quick' else 16 * 300):
+        yield session.gen(random.Random(f'C02/session/{seed}/{tier}/{i}'),
+                          tier)
     for later in ('add', 'create', 'remove'):
         for first in ('add', 'create'):
             yield {'scenario': 'release-interrupted', 'first': first,
@@ -372,6 +378,8 @@ def _key(e):
 
 
 def run_case(case):
+    if case.get('scenario') == 'session':
+        return session.run(case, 'C02')
     if case.get('scenario') == 'reentry':
         return reentry.run(case)
     if case.get('scenario') == 'overtake':
